@@ -57,6 +57,19 @@ class SpiStub:
         in_buf[in_start:m] = miso
 
 
+class SpiDevStub:
+    """spidev.SpiDev as used by wrapper/cpy_spidev.py (assumed): xfer2 clocks one CSN frame"""
+
+    def open(self, bus, dev):
+        self.opened = self.opened + 1
+
+    def close(self):
+        self.opened = self.opened - 1
+
+    def xfer2(self, data, speed_hz=0):
+        return self.hw.xfer(bytes(data))
+
+
 class Radio:
     def status(self):
         pipe = ite(self.rx_n > 0, self.rx_pipe[0], 7)
